@@ -176,10 +176,13 @@ def show(at):
     return repr(at)
 
 
+OPAQUE_TAGS = {'?', 'KeyError', 'IndexError', 'mutated', 'loop'}
+
+
 def _opaque_atom(a):
     if isinstance(a, tuple):
         if a and a[0] == '?': return True
-        if len(a) > 1 and a[0] == 'opq' and a[1] == '?': return True
+        if len(a) > 1 and a[0] == 'opq' and a[1] in OPAQUE_TAGS: return True
         return any(_opaque_atom(x) for x in a if isinstance(x, tuple))
     return False
 
@@ -301,7 +304,7 @@ def has_opaque(v) -> bool:
     def go(x):
         if isinstance(x, tuple):
             if x and x[0] == '?': return True
-            if len(x) > 1 and x[0] == 'opq' and x[1] == '?': return True
+            if len(x) > 1 and x[0] == 'opq' and x[1] in OPAQUE_TAGS: return True
             return any(go(y) for y in x)
         return False
     return go(k)
@@ -326,6 +329,7 @@ class Evaluator:
         s.prog = prog
         s.real = set(real_atoms)
         s.facts: dict = {}                 # poly key -> set of relations '>0' '>=0' '<0' '<=0' '!=0' '==0'
+        s._init_facts = list(facts)
         for p, rel in facts: s.add_fact(p, rel)
         s.assumed: list = []               # (guard, polarity) assumptions from pruned raise branches
         s.depth_limit = depth_limit
@@ -338,6 +342,12 @@ class Evaluator:
         s.raises: list = []                # pruned raise branches: guard, polarity, exception name, path condition
         s._pc: list = []
         s._undecided = 0                   # nesting depth of undecided guards (facts are learnt only at depth 0)
+
+    def fresh(s):
+        """evaluator with the same configuration but none of the facts / stores learnt while evaluating code (used for specifications)"""
+        e = Evaluator(s.prog, s.real, s._init_facts, s.depth_limit)
+        e.opaque_fns = set(s.opaque_fns); e.assume_finite = s.assume_finite
+        return e
 
     def learn(s, g, polarity: bool, exc=None, top=True):
         """a raising branch was pruned: its guard has the given truth value on every non-raising path"""
@@ -596,6 +606,8 @@ class Evaluator:
             if isinstance(op, ast.NotEq): return s.mkcmp('NotEq', d)
         if isinstance(op, (ast.Eq, ast.NotEq)):
             if same(a, b) and not has_opaque(a): return isinstance(op, ast.Eq)
+            if isinstance(a, (list, tuple)) and isinstance(b, (list, tuple)) and all(_is_concrete(x) for x in list(a) + list(b)):
+                return (tkey(list(a)) == tkey(list(b))) == isinstance(op, ast.Eq)
             ka, kb = sorted([a, b], key=lambda x: repr(tkey(x)))
             return Opq('cmp', type(op).__name__, ka, kb)
         return Opq('cmp', type(op).__name__, a, b)
@@ -816,6 +828,9 @@ class Evaluator:
         if isinstance(v, Comp) and isinstance(k, Poly) and k.real_const() is not None:
             return Opq('item', v, int(k.real_const()))
         kk = k if isinstance(k, str) else (int(k.real_const()) if isinstance(k, Poly) and k.real_const() is not None and k.real_const().denominator == 1 else tkey(k))
+        if isinstance(v, Poly) and v.as_atom() is not None and isinstance(kk, (str, int)):
+            st = s.stores.get((v.as_atom(), ('[]', kk)))
+            if st is not None: return st
         return Poly.atom(('[]', atomname(v), kk))
 
     # ---- calls
@@ -1277,9 +1292,19 @@ class Evaluator:
             base = s.ev(t.value, env, mod, depth)
             k = s.ev(t.slice, env, mod, depth) if not isinstance(t.slice, ast.Slice) else None
             if isinstance(base, dict) and isinstance(k, str): base[k] = val
+            elif isinstance(base, Poly) and base.as_atom() is not None and isinstance(k, (str, int)) and not isinstance(k, bool):
+                s.stores[(base.as_atom(), ('[]', k))] = val
+                s.mutations.append((ast.unparse(t.value), '__setitem__', [k, val]))
             elif isinstance(t.value, ast.Name):
                 s.mutations.append((t.value.id, '__setitem__', [k, val]))
                 s.rebind(t.value.id, Opq('mutated', 'setitem', base, k, val), env)
+
+
+def _is_concrete(x):
+    if isinstance(x, (str, bool, int)) or x is None: return True
+    if isinstance(x, Poly): return x.is_const()
+    if isinstance(x, (list, tuple)): return all(_is_concrete(y) for y in x)
+    return False
 
 
 class _HK:
